@@ -1,7 +1,7 @@
 SPECIFICATION Spec
 CONSTANTS
   NaN = NaN
-  Progs <- Progs3
+  Progs <- ProgsLong
   Resources <- Res
   Globals <- NoGlobals
   Data0 <- D2
